@@ -336,15 +336,24 @@ UNARY = ["is_never_negative", "all_equals_zero", "any_equals_zero", "all_greater
          "all_greater_than_or_equal_to_zero"]
 
 
-def predicate_case(ctx, pred, a, b, fat, protein):
+# optional arguments of the unary predicates (the defaults are None = call without argument)
+PRED_ARGS = {"all_equals_zero": [None, dict(rounding_decimals=3), dict(rounding_decimals=0)],
+             "all_greater_than_or_equal_to_zero": [None, dict(threshold=1e-8), dict(threshold=1.0)]}
+# values on both sides of the rounding / threshold boundaries of those predicates (5e-10, 1e-9, 1e-8, 5e-4, 0.5, 1)
+FINE = [0.0, 4e-10, -4e-10, 6e-10, -6e-10, 1.1e-9, -1.1e-9, -2e-8, 4e-4, 6e-4, -6e-4, 0.4, 0.6, -0.6, -1.5, 2.0]
+
+
+def predicate_case(ctx, pred, a, b, fat, protein, kw=None):
     from src.food_system.food import Food
     set_flags(fat, protein)
     case = dict(kind="predicate", pred=pred, a=list(a), b=list(b) if b is not None else None, fat=fat, protein=protein)
+    if kw:
+        case["kw"] = kw
     sa = Food(kcals=a[0], fat=a[1], protein=a[2])
     la = Food(kcals=np.array([a[0]]), fat=np.array([a[1]]), protein=np.array([a[2]]))
     try:
         if b is None:
-            rs, rl = getattr(sa, pred)(), getattr(la, pred)()
+            rs, rl = getattr(sa, pred)(**(kw or {})), getattr(la, pred)(**(kw or {}))
         else:
             sb = Food(kcals=b[0], fat=b[1], protein=b[2])
             lb = Food(kcals=np.array([b[0]]), fat=np.array([b[1]]), protein=np.array([b[2]]))
@@ -359,7 +368,7 @@ def predicate_case(ctx, pred, a, b, fat, protein):
     if bool(rs) != bool(rl):
         ctx.fail("predicate-scalar-vs-series:" + pred,
                  "%s with fat %s / protein %s: single value -> %s, one-month series -> %s (a=%r b=%r)" %
-                 (pred, "counted" if fat else "ignored", "counted" if protein else "ignored", bool(rs), bool(rl), a, b), case)
+                 (pred + (repr(kw) if kw else ""), "counted" if fat else "ignored", "counted" if protein else "ignored", bool(rs), bool(rl), a, b), case)
 
 
 def shard(ctx):
@@ -367,7 +376,7 @@ def shard(ctx):
     Mc = make_machine(ctx)
     seed = (ctx.seed * 1000 + ctx.shard) * 11 + 5
     with collecting(ctx):
-        run_state_machine_as_test(hypothesis.seed(seed)(Mc), settings=hyp_settings(6000 if thorough else 150, shrink=True, stateful_steps=30))
+        run_state_machine_as_test(hypothesis.seed(seed)(Mc), settings=hyp_settings(6000 if thorough else 400, shrink=True, stateful_steps=30))
     # every ordered pair of (label triple, form) through every binary operation, enumerated (the random histories meet a particular pair -
     # say a series ratio on the left of a series whose fat and protein labels differ - only now and then)
     v = [2.0, 3.0, 4.0, 5.0, 6.0, 7.0, -8.0, 9.0, 10.0]
@@ -406,6 +415,23 @@ def shard(ctx):
                     predicate_case(ctx, pred, a, b, fat, protein)
                 except Violation as v:
                     ctx.record_violation(v)
+    # the unary predicates again on a fine grid around their rounding / threshold boundaries, with their optional arguments
+    fine = list(itertools.product(FINE, repeat=3))
+    n = 0
+    for pred in UNARY:
+        for kw in PRED_ARGS.get(pred, [None]):
+            for a in fine:
+                n += 1
+                if n % ctx.nshards != ctx.shard:
+                    continue
+                for fat in (False, True):
+                    for protein in (False, True):
+                        ctx.count()
+                        try:
+                            predicate_case(ctx, pred, a, None, fat, protein, kw)
+                            ctx.event("pred_fine_grid")
+                        except Violation as v:
+                            ctx.record_violation(v)
 
 
 EXHAUSTIVE = {"quick": False, "thorough": False}
@@ -414,7 +440,7 @@ EXHAUSTIVE = {"quick": False, "thorough": False}
 def replay(case, ctx):
     ctx.count()
     if case["kind"] == "predicate":
-        predicate_case(ctx, case["pred"], case["a"], case["b"], case["fat"], case["protein"])
+        predicate_case(ctx, case["pred"], case["a"], case["b"], case["fat"], case["protein"], case.get("kw"))
         return
     Mc = make_machine(ctx)
     m = Mc()
